@@ -42,7 +42,7 @@ func cfgFor(prop, tier string) tierCfg {
 		if quick {
 			return tierCfg{pool: 360, scenarios: 420, raceFrac: 0.3, profile: Profile{MaxLen: 110, MaxRSEcc: 68, ScaleMax: 120}, maxOps: 4, maxW: []int{2, 2, 3, 4, 4, 8, 16, 32}, budget: 4 * time.Minute, shrinkEvals: 120, boundaryGroups: 10}
 		}
-		return tierCfg{pool: 3000, scenarios: 10000, raceFrac: 0.3, profile: Profile{MaxLen: 700, MaxRSEcc: 200, ScaleMax: 250, HeavyTail: true}, maxOps: 6, maxW: []int{2, 2, 3, 4, 8, 8, 16, 32, 64, 96, 128}, budget: 60 * time.Minute, shrinkEvals: 300, boundaryGroups: 40}
+		return tierCfg{pool: 3000, scenarios: 10000, raceFrac: 0.3, profile: Profile{MaxLen: 700, MaxRSEcc: 200, ScaleMax: 250, HeavyTail: true}, maxOps: 6, maxW: []int{2, 2, 3, 4, 8, 8, 16, 32, 64, 96, 128, 192, 256}, budget: 60 * time.Minute, shrinkEvals: 300, boundaryGroups: 40}
 	default: // C18
 		if quick {
 			return tierCfg{scenarios: 300, raceFrac: 0.2, maxOps: 80, maxW: []int{1, 1, 1, 2, 3}, maxBits: 120_000, budget: 3 * time.Minute, shrinkEvals: 150}
